@@ -69,7 +69,7 @@ claim('C16', "Generated __eq__ / _pane_ord / __hash__ proved (class modulo gener
       note="_maybe_make_hash proved to apply the table entry; documented class options proved accepted (signature obligation). Not under contract: __copy__/__deepcopy__/__replace__/__repr__/__setattr__.")
 claim('C17', "Option inheritance proved (PaneOptions.replace, __init_subclass__: a passed option overrides, an absent one is inherited, incl. class handlers); field merge over the MRO, "
       "override in place, keyword-only reordering, signature order, type-variable substitution and enforcement are decided by BOUNDED run-time contracts over a pool of class hierarchies.",
-      note="bounded part never counted as proved; typing.Generic bookkeeping is outside the engine (one open finding: explicit Generic[V] next to a generic base).")
+      note="bounded part never counted as proved; typing.Generic bookkeeping is outside the engine (one open finding: a field typed with a subscripted generic dataclass is not substituted).")
 claim('C18', "Precedence proved on make_converter (special forms, call-level then class-local handlers, HasConverter, scalar table, registered global handlers, structural built-ins; "
       "a deferring handler is skipped), handler normalisation (_process: mapping form matches only the exact unparameterised type), PaneConverter.__init__ (own class handlers before "
       "enclosing ones, field converter first), handler threading through every composite constructor and every into_data.")
